@@ -114,19 +114,20 @@ def _returns_in_tail(stmts) -> bool:
   return True
 
 
-def eligible(h, generator: bool = False) -> bool:
+def eligible(h, generator: bool = False, nested_ok: bool = False) -> bool:
   n = h.node
   if h.is_lambda or not isinstance(n, ast.FunctionDef):
     return False
-  if h.cls is None and '.' in h.qualname[len(h.module.name) + 1:]:
-    return False  # nested functions are not expanded
+  if h.cls is None and '.' in h.qualname[len(h.module.name) + 1:] and (
+      not nested_ok):
+    return False  # nested functions are expanded only inside their parent
   if h.cls is not None and not (n.args.args and n.args.args[0].arg == 'self'):
     return False
   if n.decorator_list or n.args.vararg or n.args.kwarg:
     return False
   if h.name in known_names() or h.name.lstrip('_') in known_names():
     return False
-  if not h.name.startswith('_'):
+  if not h.name.startswith('_') and not nested_ok:
     return False
   for x in _own_nodes(n):
     if isinstance(x, (ast.Await, ast.Global, ast.Nonlocal)):
@@ -301,6 +302,19 @@ class Inliner:
       if h is None or h is scope or not eligible(h, generator):
         return None
       return h
+    if isinstance(fn, ast.Name) and fn.id in getattr(scope, 'nested', {}):
+      # a local function of the caller itself: its free variables are the
+      # caller's own locals, so the body can stand where the call stood
+      h = scope.nested[fn.id]
+      if any(isinstance(x, ast.Nonlocal) for x in ast.walk(h.node)):
+        return None
+      n_refs = sum(1 for x in ast.walk(scope.node) if isinstance(
+          x, ast.Name) and x.id == fn.id and isinstance(x.ctx, ast.Load))
+      n_calls = sum(1 for x in ast.walk(scope.node) if isinstance(
+          x, ast.Call) and isinstance(x.func, ast.Name) and x.func.id == fn.id)
+      if n_refs != n_calls:
+        return None  # also used as a value (callback): keep it a function
+      return h if eligible(h, generator, nested_ok=True) else None
     try:
       q = self.p.resolve(call.func, scope)
     except Exception:  # pylint: disable=broad-except
@@ -540,18 +554,24 @@ class Inliner:
     """`S(... h(args) ...)` with a statement helper h in expression position
     -> `t = h(args); S(... t ...)`, when h(args) is evaluated unconditionally
     and either first in S or h has local effects only."""
-    if not isinstance(st, (ast.Expr, ast.Assign, ast.AnnAssign, ast.AugAssign,
-                           ast.Return)):
+    if isinstance(st, (ast.For, ast.AsyncFor)):
+      root = st.iter   # evaluated once, before the loop
+    elif isinstance(st, ast.If):
+      root = st.test
+    elif isinstance(st, (ast.Expr, ast.Assign, ast.AnnAssign, ast.AugAssign,
+                         ast.Return)):
+      root = st.value
+    else:
       return None
-    root = st.value if not isinstance(st, ast.Expr) else st.value
     if root is None:
       return None
-    parents = {}
-    for n in ast.walk(st):
+    parents = {id(root): st}
+    for n in ast.walk(root):
       for c in ast.iter_child_nodes(n):
         parents[id(c)] = n
+    header = isinstance(st, (ast.For, ast.AsyncFor, ast.If))
     for c in ast.walk(root):
-      if not isinstance(c, ast.Call) or c is root:
+      if not isinstance(c, ast.Call) or (c is root and not header):
         continue
       h = self._callee(c, f)
       if h is None or (_expr_body(h) is not None):
@@ -596,7 +616,14 @@ class Inliner:
           self.generic_visit(node)
           return node
 
-      R().visit(st)
+      if header:
+        new_root = R().visit(root)
+        if isinstance(st, ast.If):
+          st.test = new_root
+        else:
+          st.iter = new_root
+      else:
+        R().visit(st)
       return [pre, st]
     return None
 
